@@ -953,7 +953,8 @@ fn write_float_fract(mut num: f64, radix: usize, f: &mut Formatter<'_>) -> fmt::
     let mut first_digit = true;
     loop {
         num = num.fract() * radix as f64;
-        if num == 0_f64 {
+        // the fraction of an infinity or NaN is NaN, which never compares equal to zero
+        if num == 0_f64 || !num.is_finite() {
             break;
         }
         if first_digit {
